@@ -5,6 +5,7 @@ import (
 	"context"
 	"crypto/sha512"
 	"io"
+	"time"
 
 	"github.com/polydawn/refmt/misc"
 
@@ -126,6 +127,10 @@ func packZip(
 		if fmeta.Type == fs.Type_Invalid {
 			return nil // skip it and continue the walk
 		}
+
+		// Flatten time to seconds.  The zip header stores whole seconds only, and the hash
+		//  and the serial form must describe the same thing (as in the tar transmat).
+		fmeta.Mtime = fmeta.Mtime.Truncate(time.Second)
 
 		// Flip our metadata to zip header format, and flush it.
 		zipHeader = new(zip.FileHeader)
